@@ -130,35 +130,62 @@ example : (encodeNative OpusProps.C02.exSt false 2880 4000 (OpusProps.C02.exOr 1
     (encodeNative OpusProps.C02.exSt false 2880 4000 (OpusProps.C02.exOr 158)).pkt.hdr = [255, 67, 3] := by
   decide +kernel
 
-/- FULL STATEMENT (design §7.C02 `redundancy_mirror`, P1): the decoder skeleton reading the encoder
-   skeleton's signalling recovers (redundancy, celt_to_silk, redundancy_bytes), under C08's lock-step
-   of symbols and `ec_tell` only.
-   Proved below with two kinds of extra hypotheses, which is what is missing for the full statement:
-   (a) the decoder's own gate `ec_tell + 17 (+20) ≤ 8·len` on the actual frame length — in hybrid mode this
-       is CELT's `min_allowed` contract (celt_encoder.c:2309-2314), not a fact of the skeleton; in SILK-only
-       mode it follows from `len = ⌈tell/8⌉ + rb` when `rb ≥ 3` or the flag bit cost a full bit, and is NOT
-       implied for `rb = 2` with a 0-bit flag and `tell ≡ 0 (mod 8)` (a corner the skeleton cannot exclude);
-   (b) hybrid: the sanity check `ec_tell ≤ 8·(len − rb)` of opus_decoder.c:492 (again CELT's contract). -/
-theorem redundancy_mirror_partial :
-    (∀ (o : DecSkel.Oracle) (r : DecSkel.Run) (len tellA tell1 tellB tellU rb : Int) (red c2s : Bool),
-      tellA + 17 + 20 ≤ 8 * len → o.bit r.k 12 tellA = (b2i red, tell1) →
-      (red = true → o.bit r.tick.k 1 tell1 = (b2i c2s, tellB)) →
-      (red = true → o.uint r.tick.tick.k 256 tellB = (rb - 2, tellU)) →
-      (red = true → tellU ≤ (len - rb) * 8) →
-      (DecSkel.parseRedundancy o DecSkel.MODE_HYBRID len tellA r).1 =
-        { redundancy := b2i red, celt_to_silk := if red then b2i c2s else 0, bytes := if red then rb else 0,
-          len := if red then len - rb else len, tell := if red then tellU else tell1 }) ∧
-    (∀ (o : DecSkel.Oracle) (r : DecSkel.Run) (tellA tellB rb : Int) (c2s : Bool),
-      2 ≤ rb → tellA + 17 ≤ 8 * ((tellB + 7) / 8 + rb) → o.bit r.k 1 tellA = (b2i c2s, tellB) →
-      (DecSkel.parseRedundancy o DecSkel.MODE_SILK ((tellB + 7) / 8 + rb) tellA r).1 =
-        { redundancy := 1, celt_to_silk := b2i c2s, bytes := rb, len := (tellB + 7) / 8, tell := tellB }) ∧
+/-- `redundancy_mirror`, SILK-only mode, at full strength (P1): for the encoder skeleton's own signalling
+    (`frRedSig` returned `redundancy = true`; the byte count it clamps at :2239-2240 comes from
+    `compute_redundancy_bytes`, `mid_rb_ge`) and C08's lock-step of the single flag bit (the decoder reads
+    `celt_to_silk` back at the same `ec_tell`, and `ec_tell` did not decrease), the decoder skeleton
+    `parseRedundancy` (opus_decoder.c:471-499), on the frame of `⌈tellB/8⌉ + rb` bytes the encoder emits,
+    recovers `(redundancy, celt_to_silk, redundancy_bytes) = (1, celt_to_silk, rb)` — with NO decoder-side
+    hypothesis.  In particular the corner "redundancy_bytes = 2, the flag bit cost no whole bit, ec_tell ≡ 0
+    (mod 8)", where the decoder's length test `ec_tell+17 ≤ 8·len` would miss what the encoder's budget test
+    `ec_tell+17 ≤ 8·(max_data_bytes−1)` admitted, is arithmetically impossible (`silk_gate_agrees`):
+    `redundancy_bytes = 2` forces `max_redundancy ≤ 2`, i.e. the budget is within 16 bits of the actual
+    length, and then the encoder's test implies the decoder's.  And without redundancy the SILK-only frame
+    ends with the coded bits (`len ≤ ⌈ec_tell/8⌉`), so the decoder reads none. -/
+theorem redundancy_mirror_silk :
+    (∀ (s : St) (fi : FrameIn) (e : FrameOr) (x : Mid) (o : DecSkel.Oracle) (r : DecSkel.Run) (c2s : Bool),
+      1 ≤ s.streamChannels ∧ s.streamChannels ≤ 2 → frSilk fi (frPre s fi) e = .cont x →
+      x.st.mode = MODE_SILK_ONLY → (frRedSig fi x e).1 = true → e.tellA ≤ e.tellB →
+      o.bit r.k 1 e.tellA = (b2i c2s, e.tellB) →
+      (DecSkel.parseRedundancy o DecSkel.MODE_SILK ((e.tellB + 7) / 8 + (frRedSig fi x e).2.1) e.tellA r).1 =
+        { redundancy := 1, celt_to_silk := b2i c2s, bytes := (frRedSig fi x e).2.1, len := (e.tellB + 7) / 8,
+          tell := e.tellB }) ∧
     (∀ (o : DecSkel.Oracle) (r : DecSkel.Run) (len tellA : Int), len ≤ (tellA + 7) / 8 →
       (DecSkel.parseRedundancy o DecSkel.MODE_SILK len tellA r).1 =
-        { redundancy := 0, celt_to_silk := 0, bytes := 0, len := len, tell := tellA }) :=
-  ⟨fun o r len tellA tell1 tellB tellU rb red c2s h1 h2 h3 h4 h5 =>
-      redundancy_mirror_hybrid o r len tellA tell1 tellB tellU rb red c2s h1 h2 h3 h4 h5,
-   fun o r tellA tellB rb c2s h1 h2 h3 => redundancy_mirror_silk o r tellA tellB rb c2s h1 h2 h3,
-   fun o r len tellA h => redundancy_mirror_silk_none o r len tellA h⟩
+        { redundancy := 0, celt_to_silk := 0, bytes := 0, len := len, tell := tellA }) := by
+  refine ⟨?_, fun o r len tellA h => redundancy_mirror_silk_none o r len tellA h⟩
+  intro s fi e x o r c2s hch hx hmode hred hmono h1
+  have hxr : x.redundancy = true := by
+    unfold frRedSig at hred
+    dsimp only at hred
+    split at hred
+    · rename_i hb; unfold readsB at hb; simp only [Bool.and_eq_true] at hb; exact hb.2
+    · cases hred
+  have h13 := mid_rb_ge s fi e x hch hx hxr
+  exact redundancy_mirror_silk_full fi x e o r c2s hmode (by omega) hred hmono h1
+
+/- FULL STATEMENT (design §7.C02 `redundancy_mirror`, hybrid mode): as above without decoder-side
+   hypotheses.  Proved below (`redundancy_mirror_hybrid_partial`) under C08's lock-step of the three symbols
+   plus exactly ONE extra contract, on `celt_encode_with_ec` in hybrid VBR mode (celt_encoder.c:2303-2318,
+   `min_allowed`): the CELT part keeps the packet long enough for the decoder's gate and holds all coded
+   bits, i.e. `ec_tell_before + 37 ≤ 8·(ret + redundancy_bytes)` and `ec_tell ≤ 8·ret`.  In hybrid CBR no
+   contract is needed (`hybrid_cbr_gate`: CELT returns its whole budget, so the frame has
+   `max_data_bytes − 1` bytes and the encoder's test is the decoder's). -/
+theorem redundancy_mirror_hybrid_partial (o : DecSkel.Oracle) (r : DecSkel.Run) (len tellA tell1 tellB tellU rb : Int)
+    (red c2s : Bool) (hgate : tellA + 17 + 20 ≤ 8 * len) (h1 : o.bit r.k 12 tellA = (b2i red, tell1))
+    (h2 : red = true → o.bit r.tick.k 1 tell1 = (b2i c2s, tellB))
+    (h3 : red = true → o.uint r.tick.tick.k 256 tellB = (rb - 2, tellU))
+    (hsane : red = true → tellU ≤ (len - rb) * 8) :
+    (DecSkel.parseRedundancy o DecSkel.MODE_HYBRID len tellA r).1 =
+      { redundancy := b2i red, celt_to_silk := if red then b2i c2s else 0, bytes := if red then rb else 0,
+        len := if red then len - rb else len, tell := if red then tellU else tell1 } :=
+  redundancy_mirror_hybrid o r len tellA tell1 tellB tellU rb red c2s hgate h1 h2 h3 hsane
+
+/-- the corner, concretely: budget 11 bytes, SILK part ends at bit 64 (≡ 0 mod 8), flag costs 0 bits:
+    `max_redundancy = 10 − 8 = 2 ≥ …` cannot happen together with the encoder's gate `64+17 ≤ 80`;
+    with the smallest budget that passes (12 bytes) three bytes of redundancy are available. -/
+example : ¬ ((64 : Int) + 17 ≤ 8 * (11 - 1)) ∧ (64 : Int) + 17 ≤ 8 * (12 - 1) ∧
+    min 257 (max 2 (min ((12 - 1) - (64 + 7) / 8) 13)) = (3 : Int) := by decide
 
 /-- hybrid, 100-byte frame, SILK part ends at bit 200: flag, direction and byte count are read back. -/
 example : (200 : Int) + 17 + 20 ≤ 8 * 100 ∧ (213 + 8 : Int) ≤ (100 - 30) * 8 := by decide
